@@ -56,7 +56,11 @@ theorem take_facts (g : RxG) (n : Nat) (hn : n ≤ g.fifo.length) (hw : g.Wf) :
     (g.take n).fifo = g.fifo.drop n ∧ (g.take n).pending = g.pending ∧ (g.take n).over = g.over ∧
     (g.fifo.drop n ≠ [] → (g.take n).ready = g.ready ∧ (g.take n).crcFlag = g.crcFlag) ∧ (g.take n).irq = g.irq := by
   unfold take
-  rw [if_pos hn]
+  by_cases h0 : n = 0
+  · subst h0
+    rw [if_pos rfl]
+    exact ⟨hw, ⟨rfl, rfl, rfl, rfl, rfl, rfl, rfl⟩, by simp, rfl, rfl, rfl, fun _ => ⟨rfl, rfl⟩, rfl⟩
+  rw [if_neg h0, if_pos hn]
   dsimp only
   have hroom : (g.fifo.drop n).length ≤ 63 := by have := hw.room; simp; omega
   split
@@ -87,6 +91,7 @@ theorem rx_flags {g : RxG} (hl : g.live) (r g') (hr : rxE.R g (.rread Gen.REGIRQ
     ∃ v g1, r = .ok v ∧ g.Adv g1 ∧ g' = { g1 with irq := v } ∧ RxFlagsOk v g1 := by
   rw [rxR_live hl] at hr
   obtain ⟨hne, k, fin, hadm, hm⟩ := hr
+  unfold rxAnswer at hm
   cases r with
   | error c => exact absurd hne id
   | ok v =>
@@ -97,6 +102,7 @@ theorem rx_write3f {g : RxG} (hl : g.live) (v : UInt8) (r g') (hr : rxE.R g (.sw
     ∃ g1, r = .ok () ∧ g.Adv g1 ∧ g' = if v &&& 0x10 ≠ 0 then g1.flush else g1 := by
   rw [rxR_live hl] at hr
   obtain ⟨hne, k, fin, hadm, hm⟩ := hr
+  unfold rxAnswer at hm
   cases r with
   | error c => exact absurd hne id
   | ok u =>
@@ -108,6 +114,7 @@ theorem rx_cfg {g : RxG} (hl : g.live) (reg : Nat) (r g') (hr : rxE.R g (.rread 
     (reg = 0x3e ∨ reg = 0x11 → (∃ v, r = .ok v) ∧ g.Adv g') := by
   rw [rxR_live hl] at hr
   obtain ⟨hne, k, fin, hadm, hm⟩ := hr
+  unfold rxAnswer at hm
   cases r with
   | error c => exact absurd hne id
   | ok v =>
@@ -134,6 +141,7 @@ theorem rx_write3e {g : RxG} (hl : g.live) (v : UInt8) (r g') (hr : rxE.R g (.sw
     r = .ok () ∧ g.Adv g' := by
   rw [rxR_live hl] at hr
   obtain ⟨hne, k, fin, hadm, hm⟩ := hr
+  unfold rxAnswer at hm
   cases r with
   | error c => exact absurd hne id
   | ok u =>
@@ -145,6 +153,7 @@ theorem rx_bread {g : RxG} (hl : g.live) (n : Nat) (r g') (hr : rxE.R g (.bread 
     ∃ d g1, r = .ok d ∧ g.Adv g1 ∧ g' = g1.take n ∧ d.length = n ∧ (n ≤ g1.fifo.length → d = g1.fifo.take n) := by
   rw [rxR_live hl] at hr
   obtain ⟨hne, k, fin, hadm, hm⟩ := hr
+  unfold rxAnswer at hm
   cases r with
   | error c => exact absurd hne id
   | ok d =>
@@ -155,6 +164,7 @@ theorem rx_rfifo {g : RxG} (hl : g.live) (r g') (hr : rxE.R g (.rread Gen.REGFIF
     ∃ v g1, r = .ok v ∧ g.Adv g1 ∧ g' = g1.take 1 ∧ (1 ≤ g1.fifo.length → [v] = g1.fifo.take 1) := by
   rw [rxR_live hl] at hr
   obtain ⟨hne, k, fin, hadm, hm⟩ := hr
+  unfold rxAnswer at hm
   cases r with
   | error c => exact absurd hne id
   | ok v =>
